@@ -10,16 +10,16 @@ afterwards**.
 
 * `annotate` turns the gate output of the MRT model (`List Mrt.Upd`) into the `Rib.Update`s the RIB
   unit receives: `Update::Single(Payload::new(route, RouteContext::for_mrt_dump(provenance)))` per dump
-  entry (`unit.rs:418-426`), one `Update::Bulk` of `RouteContext::Mrt` payloads per UPDATE —
-  announcements `Active`, then the kept withdrawals `Withdrawn` (`unit.rs:231-270`) —, and
-  `Update::Withdraw(id, None)` per effective state change (`unit.rs:178`). `Mrt.Upd.bulk` does not
+  entry (`unit.rs:390-398`), one `Update::Bulk` of `RouteContext::Mrt` payloads per UPDATE —
+  announcements `Active`, then the kept withdrawals `Withdrawn` (`unit.rs:218-270`) —, and
+  `Update::Withdraw(id, None)` per effective state change (`unit.rs:180`). `Mrt.Upd.bulk` does not
   carry the attribute set of its UPDATE (C16 did not need it); `annotate` takes it from the file: the
   k-th `Bulk` of a file belongs to the k-th UPDATE record of the file (`msgAttrs`), because
   `Mrt.msgLoop` emits exactly one `Bulk` per UPDATE record it reaches, in order.
 * Prefix numbers of the MRT model are interpreted by `ι : PfxInterp`; theorems need `ι` injective
   per family (`PfxInterp.OK`). Everything MRT carries here is unicast (`mc = false`).
 * `processFile` wraps `Mrt.processFile` with one more defect-site variant, `dumpreg`: the peer index
-  loop registers a fresh ingress id per entry without a lookup (`asWritten`, `unit.rs:354-366`:
+  loop registers a fresh ingress id per entry without a lookup (`asWritten`, `unit.rs:344-356`:
   `ingresses.register()` + `update_info`) / looks the peer up first like `process_message` does
   (`repaired`: `find_or_register_peer`). With `asWritten` it *is* `Mrt.processFile`.
 * `importFile` / `importQueue`: the register and the RIB after a file / a queue of files
